@@ -39,7 +39,7 @@ ANCHORS = [
 ]
 REQUIRED = ["set_pilot_judged", "accepted", "rejected", "regime:EVSE", "regime:DeadbandEVSE", "regime:FiniteRatesEVSE",
             "rejected_with_ev_state_checked", "advert_with_session_ids_spelled_like_other_stations", "non_finite_pilots_judged", "pilots_of_magnitude_over_1e5_judged", "pilot_equals_current", "pilot_exact_zero", "pilot_repeated", "replug_between_pilots",
-            "advertised_values_applied", "suite:set_pilot_judged", "advertised_after_json", "plugin_occupied_refused", "plugin_occupied_same_session_id_refused"]
+            "advertised_values_applied", "suite:set_pilot_judged", "advertised_after_json", "plugin_occupied_refused", "plugin_occupied_same_session_id_refused", "network_plugin_on_occupied:satisfied_occupant", "network_plugin_occupied_refused"]
 BUDGET_S = {"quick": 200, "thorough": 2400}
 OFFS = [0, 1e-6, 5e-4, 9.99e-4, 1.001e-3, 2e-3, 0.5, 3]
 
@@ -141,6 +141,11 @@ def worker_init():
 def _rand_evse(rng, long_ok=False):
     k = rng.choice(["EVSE", "DB", "FR"])
     if k == "EVSE":
+        if rng.random() < 0.12:
+            # ranges examples never use: a disabled station (0..0), a degenerate range, a bidirectional one, a negative-only one
+            return rng.choice([{"t": "EVSE", "min": 0, "max": 0}, {"t": "EVSE", "min": 0.0, "max": 0.0}, {"t": "EVSE", "min": 16, "max": 16},
+                               {"t": "EVSE", "min": -32, "max": 32}, {"t": "EVSE", "min": -16, "max": 0}, {"t": "EVSE", "min": -80, "max": -6},
+                               {"t": "EVSE", "min": 0, "max": 0.004}, {"t": "EVSE", "min": -0.0, "max": 32}])
         return {"t": "EVSE", "min": rng.choice([0, 0, 6, 2.5]), "max": rng.choice([16, 32, 80, float("inf"), 7.3, 4e6, 1e9])}
     if k == "DB":
         if rng.random() < 0.12:
@@ -229,6 +234,32 @@ def _run_direct(case, obs):
             if evse.ev is not car:
                 obs.violate("plugin_occupied_replaced_occupant", "occupant object replaced by a same-id newcomer", evse=e)
                 return
+    if case["with_ev"]:
+        # the same refusal through the network's own plugin(), whatever the occupant still needs: a car that needs nothing more
+        # (request 0, or satisfied a moment ago) occupies its space like any other
+        from acnportal.acnsim.network import ChargingNetwork
+        from acnportal.acnsim.models import Battery
+        net = ChargingNetwork()
+        ev2 = build.build_evse("n0", dict(e, form="list") if e["t"] == "FR" else e)
+        net.register_evse(ev2, 208, 0)
+        need = rng.choice([0.0, 0.0, 1e-4, 5.0])
+        occ = EV(0, 10, need, "n0", "occ", Battery(50, 0, 7))
+        net.plugin(occ)
+        if need == 1e-4:
+            occ.charge(16, 208, 5)  # (directly on the car: whatever the station's range, the car ends up satisfied)
+        obs.ev("network_plugin_on_occupied:" + ("satisfied_occupant" if occ.fully_charged else "unsatisfied_occupant"))
+        for newcomer in (EV(0, 10, 5, "n0", "new", Battery(50, 0, 7)), EV(0, 10, 5, "n0", "occ", Battery(50, 0, 7))):
+            try:
+                net.plugin(newcomer)
+                obs.violate("plugin_occupied_allowed", f"ChargingNetwork.plugin on an occupied station succeeded (occupant fully charged: {occ.fully_charged})", evse=e)
+            except StationOccupiedError:
+                obs.ev("network_plugin_occupied_refused")
+            except Exception as ex_:
+                obs.ev("network_plugin_occupied_refused_with:" + type(ex_).__name__)
+            if net.get_ev("n0") is not occ:
+                obs.violate("plugin_occupied_replaced_occupant", f"after ChargingNetwork.plugin on an occupied station the occupant is "
+                            f"{getattr(net.get_ev('n0'), 'session_id', None)!r} (was 'occ', fully charged: {occ.fully_charged})", evse=e)
+                break
     if case["seed"] % 4 == 0:
         from vlib.monitors import poke
         poke(evse, build.build_evse("s", dict(e, form="list") if e["t"] == "FR" else e), car)
